@@ -5,38 +5,43 @@ import MobiusModel.Generated.Persist
 
   Property theorems only (model and lemmas: `Crash`).  A persistent update is the program of system
   calls it makes; `crash prog k fs` is what a restart finds when the process was killed after `k` of
-  them, for EVERY `k` and EVERY prior directory state `fs` (including stale temp files of earlier
-  crashes).  The loaders mirror `NewFlatNews`, `NewThreadedNewsYAML`, `NewBanFile`,
-  `NewYAMLAccountManager`; the YAML codec is a parameter (`deser`, with `deser (ser v) = some v`
-  where a value is needed).  That the code makes exactly these programs is (a) the obligations at the
-  end over os-call lists regenerated from the source, (b) the harness' strace comparison.
+  them.  The directory model has INODES (hard links share content), so "every prior state" includes
+  what earlier crashes leave behind: stale temp files and a temp name still linked to an account
+  file.  Statements hold for EVERY `k` and EVERY well-formed prior state `fs` and re-establish their
+  own hypotheses (`WF`, `TmpPrivate`), i.e. they are inductive over crash – restart – continue
+  histories (`crash_recover_continue`).  The loaders mirror `NewFlatNews`, `NewThreadedNewsYAML`,
+  `NewBanFile`, `NewYAMLAccountManager` (incl. its repair of a file whose name differs from the login
+  inside, `recover`); the YAML codec is a parameter (`deser`, `loginOf`).  That the code makes exactly
+  these programs is (a) the obligations at the end over os-call lists regenerated from the source,
+  (b) the harness' strace comparison.
   Not modelled: a kill in the middle of one `write` call, power loss (no fsync anywhere).
 -/
 namespace Mobius.C20
 open Mobius.Crash
 
 def tmpOf (p : Name) : Name := p ++ ".tmp".toList
-def acctTmp : Name := ".account.tmp".toList
-def acctFile (login : Name) : Name := login ++ ".yaml".toList
 
-/-- Generic write-temp-then-rename (DESIGN §11 `Crash.temp_rename_atomic`): at every crash point the
-    target holds its complete old content or the complete new content – the new one once the program
-    has run to its end (which is before the update is acknowledged) – and no other file changes. -/
-theorem temp_rename_atomic (fs : FS) (tmp p : Name) (new : Bytes) (hne : tmp ≠ p) (k : Nat) :
+/-- Generic write-temp-then-rename (DESIGN §11 `Crash.temp_rename_atomic`), single-file stores: at every crash
+    point the target holds its complete old content or the complete new content – the new one once the program
+    has run to its end (which is before the update is acknowledged) – and no other file changes; the crash state
+    is again well formed with a private temp file, so the same holds for the next update after the restart. -/
+theorem temp_rename_atomic (fs : FS) (hwf : WF fs) (tmp p : Name) (new : Bytes) (hne : tmp ≠ p)
+    (hp : TmpPrivate fs tmp) (k : Nat) :
     (get (crash (tempRename tmp p new) k fs) p = get fs p ∨
       get (crash (tempRename tmp p new) k fs) p = some new) ∧
     ((tempRename tmp p new).length ≤ k → get (crash (tempRename tmp p new) k fs) p = some new) ∧
-    (∀ q, q ≠ p → q ≠ tmp → get (crash (tempRename tmp p new) k fs) q = get fs q) := by
-  have h := tempRename_get fs tmp p new hne k
+    (∀ q, q ≠ p → q ≠ tmp → get (crash (tempRename tmp p new) k fs) q = get fs q) ∧
+    WF (crash (tempRename tmp p new) k fs) ∧ TmpPrivate (crash (tempRename tmp p new) k fs) tmp := by
+  have h := tempRename_get fs hwf tmp p new hne hp k
   exact ⟨h.1, fun hk => h.2.1 (by simpa [tempRename, writeFile] using hk), h.2.2⟩
 
 /-- Message board (`FlatNews.Write`: temp = `<file>.tmp`, new content = post ++ in-memory board):
     a restart loads the old board or the board with the whole post; the latter once the call returned. -/
-theorem board_post_crash_safe (fs : FS) (p : Name) (board post : Bytes) (k : Nat) :
+theorem board_post_crash_safe (fs : FS) (hwf : WF fs) (p : Name) (hp : TmpPrivate fs (tmpOf p)) (board post : Bytes) (k : Nat) :
     (loadBoard (crash (tempRename (tmpOf p) p (post ++ board)) k fs) p = loadBoard fs p ∨
       loadBoard (crash (tempRename (tmpOf p) p (post ++ board)) k fs) p = some (Board.nl2cr (post ++ board))) ∧
     (4 ≤ k → loadBoard (crash (tempRename (tmpOf p) p (post ++ board)) k fs) p = some (Board.nl2cr (post ++ board))) := by
-  have h := tempRename_get fs (tmpOf p) p (post ++ board) (append_tmp_ne p) k
+  have h := tempRename_get fs hwf (tmpOf p) p (post ++ board) (append_tmp_ne p) hp k
   refine ⟨?_, fun hk => by simp [loadBoard, h.2.1 hk]⟩
   rcases h.1 with h1 | h1
   · left; simp [loadBoard, h1]
@@ -45,12 +50,12 @@ theorem board_post_crash_safe (fs : FS) (p : Name) (board post : Bytes) (k : Nat
 /-- Threaded news (`ThreadedNewsYAML.writeFile`): if the old file loaded as `vold`, every crash state
     loads, as `vold` or as the complete new value; the new one once the call returned. -/
 theorem news_update_crash_safe {α : Type} (deser : Bytes → Option α) (ser : α → Bytes)
-    (hrt : ∀ v, deser (ser v) = some v) (fs : FS) (p : Name) (vold vnew : α)
+    (hrt : ∀ v, deser (ser v) = some v) (fs : FS) (hwf : WF fs) (p : Name) (hp : TmpPrivate fs (tmpOf p)) (vold vnew : α)
     (hold : loadYaml deser fs p = some vold) (k : Nat) :
     (loadYaml deser (crash (tempRename (tmpOf p) p (ser vnew)) k fs) p = some vold ∨
       loadYaml deser (crash (tempRename (tmpOf p) p (ser vnew)) k fs) p = some vnew) ∧
     (4 ≤ k → loadYaml deser (crash (tempRename (tmpOf p) p (ser vnew)) k fs) p = some vnew) := by
-  have h := tempRename_get fs (tmpOf p) p (ser vnew) (append_tmp_ne p) k
+  have h := tempRename_get fs hwf (tmpOf p) p (ser vnew) (append_tmp_ne p) hp k
   refine ⟨?_, fun hk => by simp [loadYaml, h.2.1 hk, hrt]⟩
   rcases h.1 with h1 | h1
   · left; simpa [loadYaml, h1] using hold
@@ -58,111 +63,146 @@ theorem news_update_crash_safe {α : Type} (deser : Bytes → Option α) (ser : 
 
 /-- Ban list (`BanFile.Add`); the file may not exist yet (then the old value is the empty list). -/
 theorem ban_add_crash_safe {α : Type} (deser : Bytes → Option α) (ser : α → Bytes) (empty : α)
-    (hrt : ∀ v, deser (ser v) = some v) (fs : FS) (p : Name) (vold vnew : α)
+    (hrt : ∀ v, deser (ser v) = some v) (fs : FS) (hwf : WF fs) (p : Name) (hp : TmpPrivate fs (tmpOf p)) (vold vnew : α)
     (hold : loadBans deser empty fs p = some vold) (k : Nat) :
     (loadBans deser empty (crash (tempRename (tmpOf p) p (ser vnew)) k fs) p = some vold ∨
       loadBans deser empty (crash (tempRename (tmpOf p) p (ser vnew)) k fs) p = some vnew) ∧
     (4 ≤ k → loadBans deser empty (crash (tempRename (tmpOf p) p (ser vnew)) k fs) p = some vnew) := by
-  have h := tempRename_get fs (tmpOf p) p (ser vnew) (append_tmp_ne p) k
+  have h := tempRename_get fs hwf (tmpOf p) p (ser vnew) (append_tmp_ne p) hp k
   refine ⟨?_, fun hk => by simp [loadBans, h.2.1 hk, hrt]⟩
   rcases h.1 with h1 | h1
   · left; simpa [loadBans, h1] using hold
   · right; simp [loadBans, h1, hrt]
 
-/-- Account update, same login (`Update` since `fix: 57e02c9`: remove the temp name, write `.account.tmp`, rename it over `<login>.yaml`): the
-    loader sees the old set of account files or the same set with this one file replaced by the complete
-    new content (in place – every other entry identical). -/
-theorem account_update_crash_safe {α : Type} (deser : Bytes → Option α) (fs : FS) (login : Name) (new : Bytes)
-    (hex : get fs (acctFile login) ≠ none) (k : Nat) :
+/-- Account update, same login (`Update` since `fix: 57e02c9`: remove the temp name, write `.account.tmp`, rename
+    it over `<login>.yaml`): in EVERY well-formed directory – also one where `.account.tmp` is still hard-linked to
+    some account file – the loader sees the old set of account files or the same set with this one file's content
+    replaced (value level: every other entry identical). -/
+theorem account_update_crash_safe {α : Type} (deser : Bytes → Option α) (fs : FS) (hwf : WF fs) (login : Name) (new : Bytes)
+    (hex : ino fs.names (acctFile login) ≠ none) (k : Nat) :
     (loadAccounts deser (crash (freshTempRename acctTmp (acctFile login) new) k fs) = loadAccounts deser fs ∨
       loadAccounts deser (crash (freshTempRename acctTmp (acctFile login) new) k fs) =
-        loadAccounts deser (set fs (acctFile login) new)) ∧
+        loadView deser (setV (view isYaml fs) (acctFile login) new)) ∧
     (5 ≤ k → loadAccounts deser (crash (freshTempRename acctTmp (acctFile login) new) k fs) =
-        loadAccounts deser (set fs (acctFile login) new)) := by
-  have h := freshTempRename_view isYaml fs acctTmp (acctFile login) new isYaml_account_tmp
+        loadView deser (setV (view isYaml fs) (acctFile login) new)) := by
+  have h := freshTempRename_view isYaml fs hwf acctTmp (acctFile login) new isYaml_account_tmp
     (account_tmp_ne_login login) hex k
-  refine ⟨?_, fun hk => by simp [loadAccounts, contents, h.2 hk]⟩
+  simp only [loadAccounts_eq]
+  refine ⟨?_, fun hk => by rw [h.2 hk]⟩
   rcases h.1 with h1 | h1
-  · left; simp [loadAccounts, contents, h1]
-  · right; simp [loadAccounts, contents, h1]
+  · left; rw [h1]
+  · right; rw [h1]
 
-/-- Account creation (`Create`: remove the temp name, write `.account.tmp`, `link` it to `<login>.yaml`, remove it): absent
-    until the link, complete from the link on; the temp file – also one left by an earlier crash – is
-    never loaded. -/
-theorem account_create_crash_safe {α : Type} (deser : Bytes → Option α) (fs : FS) (login : Name) (d : Bytes)
-    (hnew : get fs (acctFile login) = none) (k : Nat) :
+/-- Account creation (`Create`: remove the temp name, write `.account.tmp`, `link` it to `<login>.yaml`, remove it):
+    absent until the link, complete from the link on; the temp file is never loaded and never shared with an
+    older account file while it is written. -/
+theorem account_create_crash_safe {α : Type} (deser : Bytes → Option α) (fs : FS) (hwf : WF fs) (login : Name) (d : Bytes)
+    (hnew : ino fs.names (acctFile login) = none) (k : Nat) :
     (k ≤ 4 → loadAccounts deser (crash (freshCreateLink acctTmp (acctFile login) d) k fs) = loadAccounts deser fs) ∧
     (5 ≤ k → loadAccounts deser (crash (freshCreateLink acctTmp (acctFile login) d) k fs) =
-        loadAccounts deser (fs ++ [(acctFile login, d)])) := by
-  have h := freshCreateLink_view isYaml fs acctTmp (acctFile login) d isYaml_account_tmp
+        loadView deser (view isYaml fs ++ [(acctFile login, d)])) := by
+  have h := freshCreateLink_view isYaml fs hwf acctTmp (acctFile login) d isYaml_account_tmp
     (account_tmp_ne_login login) hnew k
-  exact ⟨fun hk => by simp [loadAccounts, contents, h.1 hk], fun hk => by simp [loadAccounts, contents, h.2 hk]⟩
+  have hy : isYaml (acctFile login) = true := isYaml_login login
+  simp only [hy, if_true] at h
+  simp only [loadAccounts_eq]
+  exact ⟨fun hk => by rw [h.1 hk], fun hk => by rw [h.2 hk]⟩
 
-/-- Account rename + update (`Update` with a new login: `rename old.yaml new.yaml`, then the atomic
+/-- Account rename + update (`Update` with a new, free login: `rename old.yaml new.yaml`, then the atomic
     replace): after the first call the file `new.yaml` still holds the complete OLD account, and the
     loader keys by the login inside the file – so every crash state loads as the complete old set or
     the complete new set. -/
-theorem account_rename_crash_safe {α : Type} (deser : Bytes → Option α) (fs : FS) (old new : Name) (d : Bytes)
-    (hon : acctFile old ≠ acctFile new) (hold : get fs (acctFile old) ≠ none)
-    (hnew : get fs (acctFile new) = none) (k : Nat) :
+theorem account_rename_crash_safe {α : Type} (deser : Bytes → Option α) (fs : FS) (hwf : WF fs) (old new : Name) (d : Bytes)
+    (hon : acctFile old ≠ acctFile new) (hold : ino fs.names (acctFile old) ≠ none)
+    (hnew : ino fs.names (acctFile new) = none) (k : Nat) :
     (loadAccounts deser (crash (freshRenameUpdate acctTmp (acctFile old) (acctFile new) d) k fs) = loadAccounts deser fs ∨
       loadAccounts deser (crash (freshRenameUpdate acctTmp (acctFile old) (acctFile new) d) k fs) =
-        loadAccounts deser (set (renameKey fs (acctFile old) (acctFile new)) (acctFile new) d)) ∧
+        loadView deser (setV (view isYaml { fs with names := renN fs.names (acctFile old) (acctFile new) }) (acctFile new) d)) ∧
     (6 ≤ k → loadAccounts deser (crash (freshRenameUpdate acctTmp (acctFile old) (acctFile new) d) k fs) =
-        loadAccounts deser (set (renameKey fs (acctFile old) (acctFile new)) (acctFile new) d)) := by
+        loadView deser (setV (view isYaml { fs with names := renN fs.names (acctFile old) (acctFile new) }) (acctFile new) d)) := by
   have hv : isYaml (acctFile old) = isYaml (acctFile new) := by
     simp only [acctFile]; rw [isYaml_login, isYaml_login]
-  have h := freshRenameUpdate_contents isYaml fs acctTmp (acctFile old) (acctFile new) d isYaml_account_tmp hv
+  have h := freshRenameUpdate_contents isYaml fs hwf acctTmp (acctFile old) (acctFile new) d isYaml_account_tmp hv
     (account_tmp_ne_login new) hon hold hnew k
-  refine ⟨?_, fun hk => by simp [loadAccounts, h.2 hk]⟩
+  refine ⟨?_, fun hk => by simp [loadAccounts, loadView, h.2 hk]⟩
   rcases h.1 with h1 | h1
   · left; simp [loadAccounts, h1]
-  · right; simp [loadAccounts, h1]
+  · right; simp [loadAccounts, loadView, h1]
+
+/-- The loader's repair (`fix: 083f744`) after a kill inside a rename-update: the file that already carries
+    the new name but still holds the old login is renamed back – the restarted server has the complete OLD account
+    under its OLD file name, on disk as in memory, and every later program addresses the right file. -/
+theorem interrupted_rename_is_rolled_back (loginOf : Bytes → Option Name) (fs : FS) (oldF newF : Name)
+    (hon : oldF ≠ newF) (hold : ino fs.names oldF ≠ none) (hnew : ino fs.names newF = none) (hy : isYaml newF = true)
+    (hyo : isYaml oldF = true)
+    (hname : ∀ e ∈ fs.names, isYaml e.1 = true → ∃ l, loginOf (fs.data e.2) = some l ∧ acctFile l = e.1) :
+    (recover loginOf (crash (freshRenameUpdate acctTmp oldF newF []) 1 fs)).names = fs.names ∧
+    (recover loginOf (crash (freshRenameUpdate acctTmp oldF newF []) 1 fs)).data = fs.data := by
+  obtain ⟨i0, hi0⟩ := Option.ne_none_iff_exists'.mp hold
+  have h1 : crash (freshRenameUpdate acctTmp oldF newF []) 1 fs = { fs with names := renN fs.names oldF newF } := by
+    simp [crash, freshRenameUpdate, apply, hi0, hon, hnew]
+  rw [h1]
+  have hnew' : ino (renN fs.names oldF newF) newF ≠ none := by
+    rw [ino_renN_new _ _ _ hon hnew, hi0]; simp
+  have hold' : ino (renN fs.names oldF newF) oldF = none := ino_renN_old _ _ _ hon
+  have H : ∀ e ∈ (renN fs.names oldF newF), isYaml e.1 = true →
+      ∃ l, loginOf (fs.data e.2) = some l ∧ acctFile l = (if e.1 = newF then oldF else e.1) := by
+    intro e he hye
+    simp only [renN, List.mem_map] at he
+    obtain ⟨x, hx, rfl⟩ := he
+    have hxn : x.1 ≠ newF := ino_none_not_mem _ _ hnew x hx
+    by_cases hxo : x.1 = oldF
+    · simp only [hxo, if_true]
+      obtain ⟨l, hl, hf⟩ := hname x hx (by rw [hxo]; exact hyo)
+      exact ⟨l, hl, by rw [hf, hxo]⟩
+    · simp only [hxo, if_false] at hye ⊢
+      obtain ⟨l, hl, hf⟩ := hname x hx hye
+      exact ⟨l, hl, by simp [hf, hxn]⟩
+  have := recover_undoes_rename loginOf { fs with names := renN fs.names oldF newF } oldF newF hon hnew' hold' hy H
+  refine ⟨?_, this.2⟩
+  rw [this.1]
+  exact renN_renN_back fs.names oldF newF (ino_none_not_mem _ _ hnew)
 
 /-- `Update` as the code runs it now (all three cases: same login, rename onto a free login, rename onto an
     existing login = refused before any call): every crash state loads as the value before the update or as
     the value after the completed program. -/
-theorem account_update_total_crash_safe {α : Type} (deser : Bytes → Option α) (fs : FS) (old new : Name) (d : Bytes)
-    (hold : get fs (acctFile old) ≠ none) (k : Nat) :
-    loadAccounts deser (crash (updateProg acctTmp fs (acctFile old) (acctFile new) d) k fs) = loadAccounts deser fs ∨
-    loadAccounts deser (crash (updateProg acctTmp fs (acctFile old) (acctFile new) d) k fs) =
-      loadAccounts deser (crash (updateProg acctTmp fs (acctFile old) (acctFile new) d)
-        (updateProg acctTmp fs (acctFile old) (acctFile new) d).length fs) := by
-  unfold updateProg
-  by_cases hsame : acctFile old = acctFile new
-  · simp only [hsame, if_true]
-    have hex : get fs (acctFile new) ≠ none := hsame ▸ hold
-    have hl : (freshTempRename acctTmp (acctFile new) d).length = 5 := by simp [freshTempRename, tempRename, writeFile]
-    have h := account_update_crash_safe deser fs new d hex k
-    have hfin := (account_update_crash_safe deser fs new d hex 5).2 (by omega)
-    rw [hl, hfin]
-    exact h.1
-  · simp only [hsame, if_false]
-    cases hn : get fs (acctFile new) with
-    | some c => left; simp [crash]
-    | none =>
-      simp only [Option.isSome_none, Bool.false_eq_true, if_false]
-      have hl : (freshRenameUpdate acctTmp (acctFile old) (acctFile new) d).length = 6 := by
-        simp [freshRenameUpdate, freshTempRename, tempRename, writeFile]
-      have h := account_rename_crash_safe deser fs old new d hsame hold hn k
-      have hfin := (account_rename_crash_safe deser fs old new d hsame hold hn 6).2 (by omega)
-      rw [hl, hfin]
-      exact h.1
+theorem account_update_total_crash_safe (fs : FS) (hwf : WF fs) (old new : Name) (d : Bytes)
+    (hold : ino fs.names (acctFile old) ≠ none) (kill : Option Nat) :
+    obs (runOp fs (.update old new d) kill) = obs fs ∨
+    obs (runOp fs (.update old new d) kill) = obs (runOp fs (.update old new d) none) :=
+  (acct_step_atomic fs hwf (.update old new d) hold kill).1
 
 /-- A rename onto an existing login makes no system call at all: the directory is untouched. -/
 theorem rename_onto_existing_refused (fs : FS) (old new : Name) (d : Bytes) (k : Nat)
-    (hne : acctFile old ≠ acctFile new) (hex : get fs (acctFile new) ≠ none) :
+    (hne : acctFile old ≠ acctFile new) (hex : ino fs.names (acctFile new) ≠ none) :
     crash (updateProg acctTmp fs (acctFile old) (acctFile new) d) k fs = fs := by
   obtain ⟨c, hc⟩ := Option.ne_none_iff_exists'.mp hex
   simp [updateProg, hne, hc, crash]
 
 /-- Account deletion is one call: before it the old set, after it the set without the file. -/
-theorem account_delete_crash_safe {α : Type} (deser : Bytes → Option α) (fs : FS) (login : Name) (k : Nat) :
-    loadAccounts deser (crash [.remove (acctFile login)] k fs) = loadAccounts deser fs ∨
-    loadAccounts deser (crash [.remove (acctFile login)] k fs) = loadAccounts deser (erase fs (acctFile login)) := by
-  match k with
-  | 0 => left; simp [crash]
-  | k + 1 => right; simp [crash, apply]
+theorem account_delete_crash_safe (fs : FS) (hwf : WF fs) (login : Name) (kill : Option Nat) :
+    obs (runOp fs (.delete login) kill) = obs fs ∨
+    obs (runOp fs (.delete login) kill) = obs (runOp fs (.delete login) none) :=
+  (acct_step_atomic fs hwf (.delete login) trivial kill).1
+
+/-- INDUCTIVE FORM (crash anywhere – restart with the loader's repair – continue with any further account
+    operations – crash anywhere again – …): in every state reachable from a well-formed directory by any such
+    history, the next operation is again atomic and durable – a kill at any of its call boundaries shows the loader
+    what it saw before or what it sees after the completed operation – and the state after it is reachable too.
+    No hypothesis about what earlier crashes left behind is needed: well-formedness is the whole invariant, because
+    every account write starts by giving the temp name an inode of its own.
+    (`_partial`: the statement is about what the loader reads.  That after every history each file is still NAMED
+    after the login it holds – which the later programs rely on to address the right file – is proved only for the
+    one place where it is broken and repaired, `interrupted_rename_is_rolled_back` (kill after the first call;
+    the later crash points of the same program and the harness' follow-up updates cover the rest by test),
+    not as an invariant of all histories.) -/
+theorem crash_recover_continue_partial (loginOf : Bytes → Option Name) (fs0 fs : FS) (h0 : WF fs0)
+    (h : Hist loginOf fs0 fs) (op : AcctOp) (hv : op.Valid fs) (kill : Option Nat) :
+    (obs (runOp fs op kill) = obs fs ∨ obs (runOp fs op kill) = obs (runOp fs op none)) ∧
+    WF (runOp fs op kill) ∧ Hist loginOf fs0 (runOp fs op kill) ∧ Hist loginOf fs0 (recover loginOf (runOp fs op kill)) := by
+  have hwf := hist_wf loginOf fs0 fs h0 h
+  have hs := acct_step_atomic fs hwf op hv kill
+  exact ⟨hs.1, hs.2, Hist.op op kill h hv, Hist.restart (Hist.op op kill h hv)⟩
 
 /-- The loader's `*.yaml` glob ignores the temp names in use and would NOT ignore `<x>.tmp.yaml`. -/
 theorem glob_ignores_temp :
@@ -177,8 +217,7 @@ theorem glob_ignores_temp :
 /-- NEGATIVE WITNESS (the behaviour before the `fix:` commits for account create/update, the ban list
     and the second write of `FlatNews.Write`): `os.WriteFile` directly on the live file.  After its first
     call the file is EMPTY, for every prior state: the board is lost, `NewBanFile` / `NewThreadedNewsYAML`
-    fail (no server start) when the decoder rejects empty input, and an empty account file is decoded
-    into whatever the decoder makes of nothing. -/
+    fail (no server start) when the decoder rejects empty input. -/
 theorem direct_write_torn (fs : FS) (p : Name) (new : Bytes) :
     get (crash (directWrite p new) 1 fs) p = some [] ∧
     loadBoard (crash (directWrite p new) 1 fs) p = some [] ∧
@@ -186,7 +225,12 @@ theorem direct_write_torn (fs : FS) (p : Name) (new : Bytes) :
       loadBans deser empty (crash (directWrite p new) 1 fs) p = none ∧
       loadYaml deser (crash (directWrite p new) 1 fs) p = none) := by
   have h : get (crash (directWrite p new) 1 fs) p = some [] := by
-    simp [crash, directWrite, writeFile, apply, get_set_eq]
+    simp only [crash, directWrite, writeFile, List.take, List.foldl, apply]
+    cases hi : ino fs.names p with
+    | some i => simp [Crash.get, hi, upd_same]
+    | none =>
+      simp only [Crash.get]
+      rw [ino_append, hi]; simp [upd_same]
   refine ⟨h, by simp [loadBoard, h, Board.nl2cr], ?_⟩
   intro α deser empty he
   simp [loadBans, loadYaml, h, he]
@@ -196,48 +240,66 @@ theorem direct_write_torn (fs : FS) (p : Name) (new : Bytes) :
 theorem direct_write_torn_witness :
     ∃ (fs : FS) (p : Name) (new : Bytes) (k : Nat), k ≤ (directWrite p new).length ∧
       get (crash (directWrite p new) k fs) p ≠ get fs p ∧ get (crash (directWrite p new) k fs) p ≠ some new :=
-  ⟨[("b".toList, [1, 2])], "b".toList, [3], 1, by decide, by decide, by decide⟩
+  ⟨ofList [("b".toList, [1, 2])], "b".toList, [3], 1, by decide, by decide, by decide⟩
 
 /-- The old `FlatNews.Write` (atomic rename FOLLOWED by a direct rewrite): a kill after the fifth call
     leaves an empty board although the rename had already put the complete new text in place. -/
-theorem old_board_write_torn (fs : FS) (p : Name) (new : Bytes) :
-    get (crash (tempRename (tmpOf p) p new ++ directWrite p new) 4 fs) p = some new ∧
-    get (crash (tempRename (tmpOf p) p new ++ directWrite p new) 5 fs) p = some [] := by
-  have h4 : crash (tempRename (tmpOf p) p new ++ directWrite p new) 4 fs = crash (tempRename (tmpOf p) p new) 4 fs :=
-    crash_append_le _ _ _ _ (by simp [tempRename, writeFile])
-  have h5 := crash_append_ge (tempRename (tmpOf p) p new) (directWrite p new) 1 fs
-  have hl : (tempRename (tmpOf p) p new).length = 4 := by simp [tempRename, writeFile]
-  rw [hl] at h5
-  refine ⟨?_, ?_⟩
-  · rw [h4]; exact (tempRename_get fs (tmpOf p) p new (append_tmp_ne p) 4).2.1 (by omega)
-  · rw [h5]; simp [crash, directWrite, writeFile, apply, get_set_eq]
+theorem old_board_write_torn :
+    ∃ (fs : FS) (p : Name) (new : Bytes),
+      get (crash (tempRename (tmpOf p) p new ++ directWrite p new) 4 fs) p = some new ∧
+      get (crash (tempRename (tmpOf p) p new ++ directWrite p new) 5 fs) p = some [] ∧ new ≠ [] :=
+  ⟨ofList [("b".toList, [1, 2])], "b".toList, [3], by decide, by decide, by decide⟩
 
-/-- NEGATIVE WITNESS (why the temp file must be TRUNCATED when it is opened; `temp_rename_atomic` holds for every
-    prior state precisely because `os.WriteFile` truncates): if an earlier crash left a temp file LONGER than the
-    new content and the temp is opened without `O_TRUNC`, the completed, acknowledged update publishes the new
-    content followed by the stale tail – neither old nor new (the next restart fails to parse it). -/
+/-- NEGATIVE WITNESS (why the temp file must be TRUNCATED when it is opened): if an earlier crash left a temp
+    file LONGER than the new content and the temp is opened without `O_TRUNC`, the completed, acknowledged update
+    publishes the new content followed by the stale tail – neither old nor new. -/
 theorem no_trunc_inherits_stale_tail :
     ∃ (fs : FS) (tmp p : Name) (new : Bytes),
       get fs tmp ≠ none ∧
       get (crash (tempRenameNoTrunc tmp p new) 4 fs) p ≠ get fs p ∧
       get (crash (tempRenameNoTrunc tmp p new) 4 fs) p ≠ some new ∧
       get (crash (tempRename tmp p new) 4 fs) p = some new :=
-  ⟨[("n.tmp".toList, [9, 9, 9, 9, 9]), ("n".toList, [1])], "n.tmp".toList, "n".toList, [2, 3],
+  ⟨ofList [("n.tmp".toList, [9, 9, 9, 9, 9]), ("n".toList, [1])], "n.tmp".toList, "n".toList, [2, 3],
     by decide, by decide, by decide, by decide⟩
 
-/-- NEGATIVE WITNESS for the hypothesis `hnew` of `account_rename_crash_safe` (the new login must be free):
-    `Update` does not check it, and renaming account `a` onto an EXISTING login `b` first renames `a.yaml` over
-    `b.yaml`.  A kill right after that call leaves `b`'s account destroyed while `a` is still the old `a` –
-    neither the old set `{a, b}` nor the new set `{b := a'}`.  This was the behaviour before
-    `fix: 5d2c023` (Update now refuses such a rename before any call, see `rename_onto_existing_refused` and the
-    obligation `rename_guarded`); the harness generates the case and monitors it (`rename-onto-existing-login`). -/
+/-- NEGATIVE WITNESS for `fix: 57e02c9` (why every account write first removes the temp NAME): `Create(alice)` is
+    killed after `link(.account.tmp, alice.yaml)` and before the removal of the temp name – both names are one
+    file.  After the restart the OLD `Update(bob)` (`os.WriteFile(.account.tmp)` = open with `O_TRUNC` on the shared
+    inode, then rename over `bob.yaml`) rewrites that shared file: `alice.yaml` now holds bob's account – alice,
+    whose creation had become visible, is gone.  With the programs as they are now alice keeps her content. -/
+theorem linked_temp_overwrites_account :
+    ∃ (fs : FS) (alice bob : Name) (da db : Bytes),
+      let s := crash (createLink acctTmp (acctFile alice) da) 4 fs       -- killed between link and remove
+      get s (acctFile alice) = some da ∧
+      get (crash (tempRename acctTmp (acctFile bob) db) 4 s) (acctFile alice) = some db ∧   -- old Update(bob)
+      get (crash (freshTempRename acctTmp (acctFile bob) db) 5 s) (acctFile alice) = some da ∧  -- Update(bob) now
+      get (crash (freshTempRename acctTmp (acctFile bob) db) 5 s) (acctFile bob) = some db ∧ da ≠ db :=
+  ⟨ofList [("bob.yaml".toList, [2])], "alice".toList, "bob".toList, [5], [7],
+    by decide, by decide, by decide, by decide, by decide⟩
+
+/-- NEGATIVE WITNESS for `fix: 083f744` (why the loader renames a file back under the login it holds): a
+    rename-update `a → b` is killed after its first call; WITHOUT the repair a later ordinary update of account `a`
+    creates `a.yaml` next to the stale `b.yaml` that still says `Login: a` – two files for one login, and the loader
+    keeps whichever is listed last.  WITH the repair (`recover`) there is one file again.  (`loginOf` = first byte.) -/
+theorem unrepaired_rename_duplicates_login :
+    ∃ (fs : FS) (d1 d2 : Bytes),
+      let loginOf : Bytes → Option Name := fun b => match b with | [] => none | c :: _ => some [Char.ofNat c.toNat]
+      let s := crash (freshRenameUpdate acctTmp (acctFile "a".toList) (acctFile "b".toList) d1) 1 fs
+      obs s = obs fs ∧
+      obs (crash (freshTempRename acctTmp (acctFile "a".toList) d2) 5 s) = [[97, 1], d2] ∧
+      obs (crash (freshTempRename acctTmp (acctFile "a".toList) d2) 5 (recover loginOf s)) = [d2] :=
+  ⟨ofList [("a.yaml".toList, [97, 1])], [98, 2], [97, 3], by decide, by decide, by decide⟩
+
+/-- NEGATIVE WITNESS for the hypothesis "the new login is free" of `account_rename_crash_safe` (behaviour before
+    `fix: 5d2c023`): renaming account `a` onto an EXISTING login `b` first renames `a.yaml` over `b.yaml`.  A kill
+    right after that call leaves `b`'s account destroyed while `a` is still the old `a`. -/
 theorem rename_onto_existing_login_torn :
     ∃ (fs : FS) (old new : Name) (d : Bytes) (k : Nat),
       get fs (acctFile new) ≠ none ∧
-      contents isYaml (crash (renameUpdate acctTmp (acctFile old) (acctFile new) d) k fs) ≠ contents isYaml fs ∧
-      contents isYaml (crash (renameUpdate acctTmp (acctFile old) (acctFile new) d) k fs) ≠
-        contents isYaml (crash (renameUpdate acctTmp (acctFile old) (acctFile new) d) 5 fs) :=
-  ⟨[("a.yaml".toList, [1]), ("b.yaml".toList, [2])], "a".toList, "b".toList, [9], 1, by decide, by decide, by decide⟩
+      contents isYaml (crash (freshRenameUpdate acctTmp (acctFile old) (acctFile new) d) k fs) ≠ contents isYaml fs ∧
+      contents isYaml (crash (freshRenameUpdate acctTmp (acctFile old) (acctFile new) d) k fs) ≠
+        contents isYaml (crash (freshRenameUpdate acctTmp (acctFile old) (acctFile new) d) 6 fs) :=
+  ⟨ofList [("a.yaml".toList, [1]), ("b.yaml".toList, [2])], "a".toList, "b".toList, [9], 1, by decide, by decide, by decide⟩
 
 /-! Obligations over the os-call lists regenerated from /repo's source on every run. -/
 
@@ -247,8 +309,9 @@ def isTempExpr (s : String) : Bool :=
 
 /-- The persistent update functions make exactly the os calls of the modelled programs, in that order:
     WriteFile(temp) then Rename(temp, live) [`tempRename`]; WriteFile(temp), Link(temp, final), deferred
-    Remove(temp) [`createLink`]; Rename(old, new) only when the login changes, then WriteFile(temp),
-    Rename(temp, new) [`renameUpdate` / `tempRename`]; Remove [`delete`]. -/
+    Remove(temp) [`createLink`]; Rename(old, new) only when the login changes, then Remove(temp), WriteFile(temp),
+    Rename(temp, new) [`freshRenameUpdate` / `freshTempRename`]; Remove [`delete`]; the loader's repair is one Rename
+    (file → `<login inside>.yaml`) under `want != filePath` and `IsNotExist(stat want)` [`repairStep`]. -/
 theorem persist_programs :
     Generated.persistCalls.filter (fun r => r.1 != "mobius.HandleSetFileInfo") =
     [("mobius.BanFile.Add",
@@ -257,6 +320,9 @@ theorem persist_programs :
      ("mobius.FlatNews.Write",
         [("WriteFile", "f.filePath + \".tmp\"", "data:f.data", ""),
          ("Rename", "f.filePath + \".tmp\"", "f.filePath", "")]),
+     ("mobius.NewYAMLAccountManager",
+        [("Rename", "filePath", "filepath.Join(accountDir, path.Join(\"/\", account.Login) + \".yaml\")",
+            "loop && if want != filePath && if os.IsNotExist(err)")]),
      ("mobius.ThreadedNewsYAML.writeFile",
         [("WriteFile", "n.filePath + \".tmp\"", "data:out", ""),
          ("Rename", "n.filePath + \".tmp\"", "n.filePath", "")]),
@@ -287,7 +353,8 @@ theorem rename_guarded :
     persistent update path would show up here). -/
 theorem persist_functions :
     Generated.persistCalls.map (·.1) =
-      ["mobius.BanFile.Add", "mobius.FlatNews.Write", "mobius.HandleSetFileInfo", "mobius.ThreadedNewsYAML.writeFile",
+      ["mobius.BanFile.Add", "mobius.FlatNews.Write", "mobius.HandleSetFileInfo", "mobius.NewYAMLAccountManager",
+       "mobius.ThreadedNewsYAML.writeFile",
        "mobius.YAMLAccountManager.Create", "mobius.YAMLAccountManager.Delete", "mobius.YAMLAccountManager.Update"] := by
   decide
 
@@ -301,19 +368,21 @@ theorem no_live_file_written :
 /-- The account loader globs `*.yaml` (which `isYaml` models). -/
 theorem account_glob : Generated.accountGlob = "*.yaml" := by decide
 
--- non-vacuity: a concrete directory, a stale temp file, every crash point of an account update
+-- non-vacuity: concrete directories, every crash point of the account programs – incl. a temp name still LINKED to al.yaml
 example : (List.range 7).map (fun k =>
       contents isYaml (crash (freshTempRename acctTmp (acctFile "bob".toList) [9, 9]) k
-        [("al.yaml".toList, [1]), (".account.tmp".toList, [7, 7, 7]), ("bob.yaml".toList, [2])])) =
+        (apply (ofList [("al.yaml".toList, [1]), ("bob.yaml".toList, [2])]) (.link (acctFile "al".toList) acctTmp)))) =
     [[[1], [2]], [[1], [2]], [[1], [2]], [[1], [2]], [[1], [2]], [[1], [9, 9]], [[1], [9, 9]]] := by decide
 example : (List.range 8).map (fun k =>
       contents isYaml (crash (freshRenameUpdate acctTmp (acctFile "bob".toList) (acctFile "rob".toList) [9]) k
-        [("al.yaml".toList, [1]), ("bob.yaml".toList, [2])])) =
+        (ofList [("al.yaml".toList, [1]), ("bob.yaml".toList, [2])]))) =
     [[[1], [2]], [[1], [2]], [[1], [2]], [[1], [2]], [[1], [2]], [[1], [2]], [[1], [9]], [[1], [9]]] := by decide
 example : (List.range 7).map (fun k =>
-      contents isYaml (crash (freshCreateLink acctTmp (acctFile "eve".toList) [5]) k [("al.yaml".toList, [1])])) =
+      contents isYaml (crash (freshCreateLink acctTmp (acctFile "eve".toList) [5]) k (ofList [("al.yaml".toList, [1])]))) =
     [[[1]], [[1]], [[1]], [[1]], [[1]], [[1], [5]], [[1], [5]]] := by decide
-example : get (crash (directWrite "Banlist.yaml".toList [3]) 1 [("Banlist.yaml".toList, [1, 2])]) "Banlist.yaml".toList
+example : get (crash (directWrite "Banlist.yaml".toList [3]) 1 (ofList [("Banlist.yaml".toList, [1, 2])])) "Banlist.yaml".toList
     = some [] := by decide
+example : WF (ofList [("al.yaml".toList, [1]), ("bob.yaml".toList, [2])]) := by
+  unfold WF; decide
 
 end Mobius.C20
